@@ -76,7 +76,8 @@ chk("C12", "static analysis: exact byte classes from MIR branch conditions, recu
     "unsigned twin with both overflow flags reaching Err(ParseInteger), the loop-exit table per type is "
     "(negative: n<=|MIN| -> wrapping_neg, positive: n<=MAX, unsigned: n) with the limits computed from the type width (a sign "
     "test on the accumulator reinterpreted in the signed type is read as the range of the accumulator it denotes), and "
-    "the new remainder is str_from(old, len(old)-len(unparsed)). parse_bool must spell exactly true/false and skip their "
+    "the new remainder is str_from(old, len(old)-len(unparsed)); every Ok comes out of the function's own digit loop (a result "
+    "taken over from another parser or a special case is reported). parse_bool must spell exactly true/false and skip their "
     "lengths; the 13 whole-string wrappers return Ok only when the parser succeeded with an empty remainder. Symbolic in the "
     "input, so every string and every width is covered.",
     "Trusted: rustc MIR; Horner recurrence is checked as the one-iteration relation (induction over digits is the written step).")
@@ -142,7 +143,8 @@ chk("C19", "static analysis: MIR decision tables of macro expansions in a witnes
     "rejects fragment specifiers inside transcribers (this found the arity>=3 defect); HYGIENE lint on the 43 macros of the family; all "
     "35 option/result forms re-typed with payload and error types that are neither Copy nor Clone must compile (ACC-NONCOPY), as must "
     "the documented shapes with an operand type inferred from the other (ACC-INFER) and every closure-taking form with each kind of "
-    "irrefutable closure-parameter pattern (`|&x|`, `|mut x|`, `|ref x|`, tuple, struct and tuple-struct patterns, `_`: ACC-PARAM, 72 programs).",
+    "irrefutable closure-parameter pattern (`|&x|`, `|mut x|`, `|ref x|`, tuple, struct and tuple-struct patterns, `_`: ACC-PARAM, 72 programs), "
+    "and fallbacks that only coerce to the payload type (array reference to slice, fn item to fn pointer, reference to trait object).",
     "Trusted: rustc's macro expansion and MIR for the witness crate; marker functions are opaque (`#[inline(never)] loop{}`), "
     "so results hold for every closure. The accept family is sampled per arity in the quick tier (uniform + mixed kinds).",
     cat="other")
@@ -207,7 +209,8 @@ chk("C11", "static analysis: MaybeUninit init-typestate (path coverage on the pr
     "into a fresh builder, and only new/push/copies write `inited`; map_! forgets the consumer only after next() returned None and then builds; both collect_const passes call the "
     "same generated function and count identically; while the closure body of map_! runs the element is an ordinary owned local "
     "(ManuallyDrop::into_inner dominates all caller code of the round, 8 witnesses incl. `|ref x|` with early exits: ELEM-OWNED); an array "
-    "operand that borrows from its own temporaries must compile, as it does with <[T; N]>::map (ACC-TEMP).",
+    "operand that borrows from its own temporaries must compile, as it does with <[T; N]>::map (ACC-TEMP); which elements collect_const! "
+    "collects, and in which order, is the iterator DSL's expansion, decided here as well with C10's chain validation on its standard chain set (TV).",
     "Trusted: rustc MIR and macro expansion; macro hygiene keeps the counter/array unnameable from user tokens. Values "
     "computed by user closures are opaque (marker functions).")
 chk("C15", "static analysis: linear-use analysis of macro expansions in a witness crate (MIR), container read/advance/drop-range rules and field-writer invariants",
